@@ -1,4 +1,5 @@
 import Qryn.Read.ConfineSearch
+import Qryn.Tempo.Legacy
 import Qryn.Proofs.ConfineRead
 import Qryn.Proofs.Sort
 /-! C13 for the legacy Tempo search: every plan of `Tempo.planSearch` — any tags, limit, durations, window, version
@@ -369,3 +370,44 @@ theorem isVersionSupported_versionInfo (rows : List (Bytes × Bytes)) (tables : 
   cases lastParsed name rows <;> rfl
 
 end Qryn.Tempo
+
+namespace Qryn.Confine
+open Qryn Qryn.Sql Qryn.Tempo
+
+/-! ### trace by id -/
+/-- the window a trace-by-id request asks for: `[start, end)` -/
+def winQuery (q : QueryReq) : Window := ⟨q.startNs, q.endNs, 0, false, 0⟩
+
+theorem queryConds_leaf (q : QueryReq) : ∀ e ∈ queryConds q, Leaf e := by
+  intro e he
+  simp only [queryConds, List.mem_append, List.mem_singleton] at he
+  rcases he with (rfl | h) | h
+  · exact leaf_logical _ _ (by decide)
+  · split at h
+    · simp only [List.mem_singleton] at h; subst h; exact leaf_logical _ _ (by decide)
+    · cases h
+  · split at h
+    · simp only [List.mem_singleton] at h; subst h; exact leaf_logical _ _ (by decide)
+    · cases h
+
+theorem queryInner_confined (cfg : Cfg) (q : QueryReq) (ok : List Alias)
+    (h1 : cfg.kind q.tracesTable = .data) (h2 : cfg.kind q.tracesDistTable = .data)
+    (hs : q.startNs ≠ 0) (he : q.endNs ≠ 0) : bodyConfined cfg (winQuery q) ok (queryInner q) = true := by
+  have hc : conjuncts (some (and_ (queryConds q))) = queryConds q := conjuncts_and_flat _ (queryConds_leaf q)
+  have hk : cfg.kind (if q.cluster then q.tracesDistTable else q.tracesTable) = .data := by cases q.cluster <;> simp [h1, h2]
+  simp only [queryInner, bodyConfined, fromTable, hk, conjuncts_none, List.nil_append, hc]
+  simp only [Bool.or_eq_true, Bool.and_eq_true]
+  refine Or.inl ⟨⟨?_, ?_⟩, by simp [winQuery]⟩
+  · simp [queryConds, hs, he, isLowerTs, isTsCol, ge, winQuery]
+  · simp [queryConds, hs, he, isUpperTs, isTsCol, lt, eq, ge, winQuery]
+
+/-- **queryRequest_confined.** -/
+theorem queryRequest_confined (cfg : Cfg) (q : QueryReq)
+    (h1 : cfg.kind q.tracesTable = .data) (h2 : cfg.kind q.tracesDistTable = .data)
+    (hs : q.startNs ≠ 0) (he : q.endNs ≠ 0) : confined cfg (winQuery q) (queryRequest q) = true := by
+  have hb := queryInner_confined cfg q [] h1 h2 hs he
+  unfold queryRequest confined
+  simp only [withsConfined, hb, Bool.true_and, Bool.and_true]
+  simp [bodyConfined, fromTable]
+
+end Qryn.Confine
